@@ -8,7 +8,7 @@
    twice", whatever the reuse guard.  All statements are for every sequence of requests /
    sends, of any length.  Statements only. *)
 From Coq Require Import NArith List.
-From MlsV Require Import Res Ratchet RatchetProofs.
+From MlsV Require Import Res Ratchet RatchetProofs RatchetGen RatchetGenProofs.
 Import ListNotations.
 Local Open Scope N_scope.
 
@@ -59,3 +59,14 @@ Print Assumptions C05_window_exact.
 Print Assumptions C05_senders_never_share_a_key.
 Print Assumptions C05_sender_generations_distinct.
 Print Assumptions C05_invariant_initially.
+
+(* the state machine of these theorems IS what the translator reads in secret_tree.rs
+   (get_message_key, out_of_order build; regenerated on every run) *)
+Theorem C05_translated_ratchet_is_the_model : forall s g,
+  gen_get_message_key s g = get_message_key s g.
+Proof. exact gen_get_message_key_is_model. Qed.
+Print Assumptions C05_translated_ratchet_is_the_model.
+
+Theorem C05_translated_window_is_the_model : gen_window = MAX_RATCHET_BACK_HISTORY.
+Proof. exact gen_window_is_model. Qed.
+Print Assumptions C05_translated_window_is_the_model.
